@@ -81,6 +81,8 @@ def _random_model(eng, rng, base, nofix=False):
             v = eng.inputs[nm]
             if z3.is_bool(v):
                 s.add(v == bool(rng.getrandbits(1)))
+            elif isinstance(v, z3.FPRef):
+                s.add(z3.fpEQ(v, z3.FPVal(rng.random(), v.sort())))
             elif z3.is_int(v):
                 lo, hi = ranges.get(nm, (-3, 3))
                 s.add(v == rng.randint(lo, hi))
